@@ -46,7 +46,8 @@ MATRIX = ["gcc-O0", "gcc-O1", "gcc-O2", "gcc-O3", "gcc-Os", "clang-O0", "clang-O
 # code-generation variants beyond the optimisation level: wide vector units, the other signedness of plain char
 MATRIX_X = ["gcc-O3+march=native", "clang-O3+march=native", "gcc-O2+funsigned-char", "clang-O2+funsigned-char", "gcc-O2+fwrapv+fno-strict-aliasing",
             "gcc-O2+std=c99+w", "clang-O2+std=c99+w",        # strict ISO C language mode (CMAKE_C_EXTENSIONS=OFF)
-            "gcc-O2+flto+ffat-lto-objects", "clang-O2+flto"]   # whole-program optimisation across the library's translation units
+            "gcc-O2+flto+ffat-lto-objects", "clang-O2+flto",   # whole-program optimisation across the library's translation units
+            "gcc-O3+DNDEBUG", "clang-O3+DNDEBUG"]              # CMake's stock Release flags: assert() compiled out
 
 
 def batch_jobs(ctx, exe, tag, args, nb):
@@ -287,6 +288,15 @@ def run_hash(ctx, builds, args, nb, hname, timeout=1800):
     ctx.run_jobs(jobs, timeout=timeout)
 
 
+def run_hash_huge(ctx, build, variants):
+    """thorough only: single calls of 2^32+37 bytes on one build (about 2 minutes per variant, three threads each)"""
+    exe = ctx.harness("h_hash-huge-" + build["tag"], "h_hash.c", build["lib"], cc=build["cc"], flags=build["hflags"])
+    jobs = []
+    for v in variants:
+        jobs += batch_jobs(ctx, exe, build["tag"], ["--mode", "huge", "--p1", v], 1)
+    ctx.run_jobs(jobs, timeout=3000)
+
+
 BE_TARGETS = ["armeb-none-eabi", "armebv7a-none-eabi", "thumbebv7em-none-eabi", "aarch64_be-none-elf", "powerpc-linux-gnu", "powerpc64-linux-gnu",
               "mips-linux-gnu", "mips64-linux-gnu", "s390x-linux-gnu", "sparc-linux-gnu", "sparc64-linux-gnu", "m68k-linux-gnu"]
 LE_TARGETS = ["x86_64-linux-gnu", "i686-linux-gnu", "arm-none-eabi", "thumbv7m-none-eabi", "aarch64-linux-gnu", "riscv32", "riscv64", "avr",
@@ -334,12 +344,14 @@ def c10(ctx):
     load_replay(ctx)
     ctx.model_selfcheck()
     N, reps, NL = ctx.q((200, 1, 24), (1500, 6, 400))
-    builds = build_set(ctx, ctx.q(["prod", "gcc-O0", "gcc-O2", "clang-O2", "clang-O3", "asan-gcc", "msan"],
+    builds = build_set(ctx, ctx.q(["prod", "gcc-O0", "gcc-O2", "clang-O2", "clang-O3", "gcc-O3+DNDEBUG", "asan-gcc", "msan"],
                                   ["prod"] + MATRIX + MATRIX_X + ["asan-gcc", "asan-clang", "msan"]))
     run_hash(ctx, builds, ["--mode", "hash", "--p1", N, "--p2", reps, "--p3", NL], ctx.q(4, 16), "h_hash")
+    if ctx.thorough:
+        run_hash_huge(ctx, builds[0], [0, 2])
     byte_order_census(ctx)
     ctx.rule = ("every length 0..N x 6 byte classes (x repetitions), placement (end-guard/start-guard/mid+canary) and alignment offset 0..7 "
-                "rotating with the index, NULL for length 0 in half of the cases; random long lengths (to 64 KiB; thorough: one 4 MiB message); "
+                "rotating with the index, NULL for length 0 in half of the cases; random long lengths (to 64 KiB; thorough: one 4 MiB message, and single calls of 2^32+37 bytes judged against the same bytes fed in pieces below 2^32); "
                 "same case list on every build. class = (length | long bucket, byte class, placement, offset). Oracle: model of the README MDPH "
                 "construction over the bit-serial TinyJAMBU-256 NLFSR; tools/hashref compiled as is as second opinion. Supplementary census: the header's byte-order decision evaluated by the preprocessor under the predefined macros of 12 big-endian and 10 little-endian clang targets.")
     ctx.exhaustive = False
@@ -351,7 +363,7 @@ def c11(ctx):
     load_replay(ctx)
     ctx.model_selfcheck()
     N, NZ, NR = ctx.q((14, 9, 3000), (20, 11, 60000))
-    builds = build_set(ctx, ctx.q(["prod", "asan-gcc", "msan"], ["prod", "gcc-O0", "clang-O3", "asan-gcc", "asan-clang", "msan"]))
+    builds = build_set(ctx, ctx.q(["prod", "clang-O2", "gcc-O3+DNDEBUG", "asan-gcc", "msan"], ["prod", "gcc-O0", "gcc-Os", "clang-O2", "clang-O3", "clang-Os", "gcc-O3+DNDEBUG", "clang-O3+DNDEBUG", "gcc-O2+funsigned-char", "asan-gcc", "asan-clang", "msan"]))
     run_hash(ctx, builds, ["--mode", "stream", "--p1", N, "--p2", NZ, "--p3", NR], 16, "h_hash-s")
     ctx.rule = ("(a) ALL 2^(n-1) compositions of every length n <= N into update calls (exhaustive), state object pre-filled with junk; "
                 "(b) for n <= NZ the same with a zero-length update (NULL, then non-NULL) at every gap; (c) random chunkings of messages up to 8 KiB "
@@ -367,11 +379,13 @@ def c12(ctx):
     load_replay(ctx)
     ctx.model_selfcheck()
     K, NR = ctx.q((200, 150), (400, 20000))
-    builds = build_set(ctx, ctx.q(["prod", "gcc-O2", "asan-gcc", "msan"], ["prod"] + MATRIX + ["asan-gcc", "asan-clang", "msan"]))
+    builds = build_set(ctx, ctx.q(["prod", "gcc-O2", "clang-O2", "gcc-O3+DNDEBUG", "asan-gcc", "msan"], ["prod"] + MATRIX + MATRIX_X + ["asan-gcc", "asan-clang", "msan"]))
     run_hash(ctx, builds, ["--mode", "hmac", "--p1", K, "--p3", NR], ctx.q(8, 16), "h_hash-m")
+    if ctx.thorough:
+        run_hash_huge(ctx, builds[0], [1])
     ctx.rule = ("every key length 0..K (NULL for 0 in half the cases) x message lengths {0,1,15,16,17,31,32,33,63,64,65,127,128,200} + random "
                 "(key <= 300, message <= 4096); per case: one-shot vs RFC 2104 model, incremental with random chunking and the key at a different "
-                "address for finalize, reinit after an abandoned prefix, reinit after finalize. class = (keylen, mlen, byte class).")
+                "address for finalize, reinit after an abandoned prefix, reinit after finalize; thorough: one-shot HMAC of 2^32+37 bytes vs the same bytes in updates below 2^32. class = (keylen, mlen, byte class).")
     ctx.exhaustive = False
 
 
@@ -382,7 +396,7 @@ def c13(ctx):
     load_replay(ctx)
     ctx.model_selfcheck()
     NS = ctx.q(160, 3200)
-    builds = build_set(ctx, ctx.q(["prod", "asan-gcc", "msan"], ["prod", "gcc-O0", "gcc-O2", "clang-O3", "asan-gcc", "asan-clang", "msan"]))
+    builds = build_set(ctx, ctx.q(["prod", "clang-O2", "gcc-O3+DNDEBUG", "asan-gcc", "msan"], ["prod", "gcc-O0", "gcc-O2", "gcc-Os", "clang-O2", "clang-O3", "clang-Os", "gcc-O3+DNDEBUG", "clang-O3+DNDEBUG", "gcc-O2+funsigned-char", "asan-gcc", "asan-clang", "msan"]))
     run_harness_on(ctx, "h_kdf.c", builds, ["--mode", "hkdf", "--p1", NS], 16, timeout=3000)
     ctx.rule = ("one case = one (key, salt, info) stream: lengths from {0(NULL),1,31,32,33,64,65,100}^3 (first 512 indices, enumerated) then random; "
                 "the model's RFC 5869 output (8160 bytes for every 4th stream in quick, every stream in thorough; 700 otherwise) is computed once and the "
@@ -398,7 +412,7 @@ def c14(ctx):
     load_replay(ctx)
     ctx.model_selfcheck()
     D, NR = ctx.q((100, 150), (200, 12000))
-    builds = build_set(ctx, ctx.q(["prod", "asan-gcc", "msan"], ["prod", "gcc-O0", "gcc-O2", "clang-O3", "asan-gcc", "asan-clang", "msan"]))
+    builds = build_set(ctx, ctx.q(["prod", "clang-O2", "gcc-O3+DNDEBUG", "asan-gcc", "msan"], ["prod", "gcc-O0", "gcc-O2", "gcc-Os", "clang-O2", "clang-O3", "clang-Os", "gcc-O3+DNDEBUG", "clang-O3+DNDEBUG", "gcc-O2+funsigned-char", "asan-gcc", "asan-clang", "msan"]))
     run_harness_on(ctx, "h_kdf.c", builds, ["--mode", "pbkdf2", "--p1", D, "--p3", NR], 16, timeout=3000)
     ctx.rule = ("every outlen 0..D with password lengths {0,1,63,64,65,100,200}, salt lengths 0..40 and counts {0,1,2,3,4,5,10} rotating; "
                 "outputs 8165, 8200, 20000, 8192, 8223 bytes (block index > 255); counts {100,1000,4096} with short outputs; random parameter sets; "
@@ -418,7 +432,7 @@ def c15(ctx):
     load_replay(ctx)
     ctx.model_selfcheck()
     NH, NR = ctx.q((2500, 200), (100000, 4000))
-    builds = build_set(ctx, ctx.q(["prod", "asan-gcc", "msan"], ["prod", "gcc-O0", "gcc-O2", "clang-O3", "asan-gcc", "asan-clang", "msan"]))
+    builds = build_set(ctx, ctx.q(["prod", "clang-O2", "gcc-O3+DNDEBUG", "asan-gcc", "msan"], ["prod", "gcc-O0", "gcc-O2", "gcc-Os", "clang-O2", "clang-O3", "clang-Os", "gcc-O3+DNDEBUG", "clang-O3+DNDEBUG", "gcc-O2+funsigned-char", "asan-gcc", "asan-clang", "msan"]))
     if ctx.thorough:       # full history count on the production and ASan objects, a fifth on the other builds
         run_harness_on(ctx, "h_prng.c", [b for b in builds if b["tag"] in ("prod-cmake-Release", "asan-gcc")], ["--mode", "model", "--p1", NH, "--p2", NR], 16, timeout=3000)
         run_harness_on(ctx, "h_prng.c", [b for b in builds if b["tag"] not in ("prod-cmake-Release", "asan-gcc")], ["--mode", "model", "--p1", NH // 5, "--p2", NR // 5], 16, timeout=3000)
@@ -465,7 +479,7 @@ def c17(ctx):
     load_replay(ctx)
     ctx.model_selfcheck()
     NR = ctx.q(300, 100000)
-    builds = build_set(ctx, ctx.q(["prod", "asan-gcc", "msan"], ["prod", "gcc-O0", "gcc-O2", "clang-O3", "asan-gcc", "asan-clang", "msan"]))
+    builds = build_set(ctx, ctx.q(["prod", "clang-O2", "gcc-O3+DNDEBUG", "asan-gcc", "msan"], ["prod", "gcc-O0", "gcc-O2", "gcc-Os", "clang-O2", "clang-O3", "clang-Os", "gcc-O3+DNDEBUG", "clang-O3+DNDEBUG", "gcc-O2+funsigned-char", "asan-gcc", "asan-clang", "msan"]))
     run_harness_on(ctx, "h_prng.c", builds, ["--mode", "faults", "--p3", NR], 16, timeout=3000, hname="h_prng-f")
     if not ctx.replay and ctx.stats.get("null_callback_child_runs", 0) < 6:
         ctx.inconclusive.append("NULL-callback child runs did not all execute")
